@@ -1,2 +1,148 @@
--- property theorems for C03 (in progress)
+/- C03 — equality, hashing and ordering agree with each other: property theorems.
+
+   All statements are about the model `JanetModel.Value` (Value/Model.lean, Value/Struct.lean), for every number type
+   `N` satisfying `LawfulNum` (the laws of IEEE doubles other than NaN); `F64` (64-bit patterns) is such a type.
+   The model is tied to /repo/src/core/{value,util,struct,string}.c by Gen/Value.lean (regenerated constants and shape
+   checks) and by the correspondence harness (checks/C03.py). -/
+import JanetModel.Value.Order
+import JanetModel.Value.F64
 import JanetModel.Value.Struct
+
+namespace JanetModel.Props.C03
+open JanetModel.Value
+
+variable {N : Type} [NumLike N] [LawfulNum N]
+
+/-! ### `=` is an equivalence relation -/
+
+theorem equals_refl (a : JVal N) : equals a a = true := by
+  rw [equals_eq_contentEq_both.1]; exact contentEq_refl_both.1 a
+
+theorem equals_symm (a b : JVal N) : equals a b = equals b a := by
+  rw [equals_eq_contentEq_both.1, equals_eq_contentEq_both.1]; exact contentEq_symm_both.1 a b
+
+theorem equals_trans (a b c : JVal N) (h1 : equals a b = true) (h2 : equals b c = true) : equals a c = true := by
+  rw [equals_eq_contentEq_both.1] at *; exact contentEq_trans_both.1 a b c h1 h2
+
+/-- `janet_equals` with its hash / length short-cuts decides exactly content equality (`contentEq`: same type, same
+    number up to −0 = +0, same bytes, same bracket kind and element-wise equal, same slots and prototype, same address) -/
+theorem equals_iff_content (a b : JVal N) : equals a b = contentEq a b := equals_eq_contentEq_both.1 a b
+
+/-! ### equal values hash alike (needs the −0 normalisation, the bracket-flag offset, the prototype term) -/
+
+theorem equals_hash (a b : JVal N) (h : equals a b = true) : hash a = hash b := by
+  rw [equals_eq_contentEq_both.1] at h; exact contentEq_hash_both.1 a b h
+
+/-! ### `compare` is one total order and its equality is `=` -/
+
+theorem compare_antisymm (a b : JVal N) : jcompare b a = (jcompare a b).swap :=
+  (swap_all (sizeOf a + sizeOf b)).1 a b (Nat.le_refl _)
+
+theorem compare_triple (a b c : JVal N) : Tri (jcompare a b) (jcompare b c) (jcompare a c) :=
+  (tri_all (sizeOf a + sizeOf b + sizeOf c)).1 a b c (Nat.le_refl _)
+
+/-- `≤` is transitive -/
+theorem compare_trans (a b c : JVal N) (h1 : jcompare a b ≠ .gt) (h2 : jcompare b c ≠ .gt) : jcompare a c ≠ .gt :=
+  (compare_triple a b c).1 h1 h2
+
+/-- `<` is transitive, also when one side is only `≤` -/
+theorem compare_lt_of_lt_of_le (a b c : JVal N) (h1 : jcompare a b = .lt) (h2 : jcompare b c ≠ .gt) : jcompare a c = .lt :=
+  (compare_triple a b c).2.1 h1 h2
+
+theorem compare_lt_of_le_of_lt (a b c : JVal N) (h1 : jcompare a b ≠ .gt) (h2 : jcompare b c = .lt) : jcompare a c = .lt :=
+  (compare_triple a b c).2.2.1 h1 h2
+
+/-- any two values are comparable -/
+theorem compare_total (a b : JVal N) : jle a b = true ∨ jle b a = true := by
+  unfold jle; rw [compare_antisymm a b]; cases jcompare a b <;> simp
+
+theorem compare_eq_zero_iff_equals (a b : JVal N) : jcompare a b = .eq ↔ equals a b = true := by
+  rw [equals_eq_contentEq_both.1]; exact (eqiff_all (sizeOf a + sizeOf b)).1 a b (Nat.le_refl _)
+
+/-- the order is total: antisymmetric (up to `=`), transitive, total -/
+theorem compare_total_order :
+    (∀ a b : JVal N, jcompare b a = (jcompare a b).swap) ∧
+    (∀ a b : JVal N, jle a b = true → jle b a = true → equals a b = true) ∧
+    (∀ a b c : JVal N, jle a b = true → jle b c = true → jle a c = true) ∧
+    (∀ a b : JVal N, jle a b = true ∨ jle b a = true) := by
+  refine ⟨compare_antisymm, ?_, ?_, compare_total⟩
+  · intro a b h1 h2
+    rw [← compare_eq_zero_iff_equals]
+    unfold jle at h1 h2; rw [compare_antisymm a b] at h2
+    cases h : jcompare a b <;> simp_all
+  · intro a b c h1 h2
+    unfold jle at *
+    have := compare_trans a b c (by simpa using h1) (by simpa using h2)
+    simpa using this
+
+/-- equal values are interchangeable on either side of a comparison -/
+theorem compare_congr (a b c : JVal N) (h : equals a b = true) : jcompare a c = jcompare b c ∧ jcompare c a = jcompare c b := by
+  have hab := (compare_eq_zero_iff_equals a b).mpr h
+  have hba : jcompare b a = .eq := by rw [compare_antisymm a b, hab]; rfl
+  have t1 := compare_triple a b c
+  have t2 := compare_triple b a c
+  have key : jcompare a c = jcompare b c := by
+    cases h1 : jcompare b c
+    · exact t1.2.2.1 (by simp [hab]) h1
+    · exact t1.2.2.2 hab h1
+    · cases h2 : jcompare a c
+      · have := t2.2.2.1 (by simp [hba]) h2; simp_all
+      · have := t2.2.2.2 hba h2; simp_all
+      · rfl
+  refine ⟨key, ?_⟩
+  rw [compare_antisymm a c, compare_antisymm b c, key]
+
+/-! ### `<`, `<=`, `>`, `>=` are that same order -/
+
+theorem lt_le_gt_ge_agree (a b : JVal N) :
+    jlt a b = (jcompare a b == .lt) ∧ jgt a b = jlt b a ∧ jge a b = jle b a ∧ jle a b = (jlt a b || equals a b) ∧
+    jlt a b = !jge a b := by
+  have he := compare_eq_zero_iff_equals a b
+  unfold jlt jgt jge jle
+  rw [compare_antisymm a b]
+  cases h : jcompare a b <;> cases h2 : equals a b <;> simp_all <;> decide
+
+/-! ### tuples by content, reference types by identity, symbols by bytes -/
+
+/-- two tuples are equal exactly when they have the same bracket kind and element-wise equal contents -/
+theorem tuple_by_content (br1 br2 : Bool) (xs ys : List (JVal N)) :
+    equals (.tuple br1 xs) (.tuple br2 ys) = (br1 == br2 && contentEqList xs ys) := by
+  rw [equals_eq_contentEq_both.1]; simp [contentEq]
+
+/-- structs are equal exactly when their slot arrays and prototypes are element-wise equal
+    (that the slot array is a function of the contents alone is `struct_layout_canonical`) -/
+theorem struct_by_slots (f1 p1 f2 p2 : List (JVal N)) :
+    equals (.struct f1 p1) (.struct f2 p2) = (contentEqList f1 f2 && contentEqList p1 p2) := by
+  rw [equals_eq_contentEq_both.1]; simp [contentEq]
+
+/-- arrays, tables, buffers, functions, fibers, …: equal iff same kind and same address; ordered by address -/
+theorem ref_by_identity (k1 k2 : RefKind) (b1 b2 : UInt64) :
+    (equals (.ref k1 b1 : JVal N) (.ref k2 b2) = true ↔ k1 = k2 ∧ b1 = b2) ∧
+    (jcompare (.ref k1 b1 : JVal N) (.ref k2 b2) = .eq ↔ k1 = k2 ∧ b1 = b2) := by
+  have h : equals (.ref k1 b1 : JVal N) (.ref k2 b2) = true ↔ k1 = k2 ∧ b1 = b2 := by simp [equals]
+  exact ⟨h, by rw [compare_eq_zero_iff_equals]; exact h⟩
+
+/-- symbols (keywords) are equal iff they have the same bytes, and never equal to a string or keyword (symbol) with
+    those bytes.  In C the comparison is by pointer; that interning makes pointer identity coincide with byte equality
+    is the invariant checked directly on `janet_vm.cache` by the harness (symbol-cache scenario). -/
+theorem symbol_identity_iff_bytes (a b : List UInt8) :
+    (equals (.sym a : JVal N) (.sym b) = true ↔ a = b) ∧ (equals (.kw a : JVal N) (.kw b) = true ↔ a = b) ∧
+    equals (.sym a : JVal N) (.kw b) = false ∧ equals (.sym a : JVal N) (.str b) = false ∧
+    equals (.kw a : JVal N) (.str b) = false ∧
+    (jcompare (.sym a : JVal N) (.sym b) = .eq ↔ a = b) ∧ (jcompare (.kw a : JVal N) (.kw b) = .eq ↔ a = b) := by
+  refine ⟨by simp [equals], by simp [equals], by simp [equals], by simp [equals], by simp [equals], ?_, ?_⟩ <;>
+    simp [jcompare, bytesCompare_eq_iff]
+
+/-! ### non-vacuity: the executable doubles are lawful, and the statements speak about non-trivial values -/
+
+example : LawfulNum F64 := inferInstance
+
+/-- −0 and +0 are equal, hash alike, also inside tuples and as struct keys -/
+example : equals (.num ⟨0⟩ : JVal F64) (.num ⟨0x8000000000000000⟩) = true := by decide
+example : Value.hash (JVal.tuple false [.num ⟨0⟩] : JVal F64) = Value.hash (JVal.tuple false [.num ⟨0x8000000000000000⟩] : JVal F64) :=
+  equals_hash _ _ (by decide)
+/-- bracketed and parenthesised tuples with the same elements differ -/
+example : equals (.tuple true [.nil] : JVal F64) (.tuple false [.nil]) = false := by decide
+example : jcompare (.tuple true [.nil] : JVal F64) (.tuple false [.nil]) = .gt := by decide
+
+end JanetModel.Props.C03
